@@ -12,6 +12,7 @@ import (
 	"fmt"
 	"path"
 	"strings"
+	"time"
 
 	"go.step.sm/crypto/jose"
 
@@ -85,6 +86,14 @@ func (t *interner) id(s string) int {
 	return v
 }
 
+// idp interns prefix+v, keeping the empty string 0 (the model tests ids against "")
+func (t *interner) idp(prefix, v string) int {
+	if v == "" {
+		return 0
+	}
+	return t.id(prefix + v)
+}
+
 func b64(b []byte) string { return base64.RawURLEncoding.EncodeToString(b) }
 
 func statusLetter(s acme.Status) string {
@@ -110,10 +119,17 @@ func (w *world) run(k *Case) (line, impl string) {
 	switch {
 	case k.Req >= 0 && k.Req <= 2:
 		req = w.own[k.Req].acct
-	case k.Req == 3 || k.Req == 5:
+	case k.Req == 3 || k.Req == 5 || k.Req == 6 || k.Req == 7:
 		a, err := e.NewAccount("p0", env.NewKey("es256", 0))
 		if err != nil {
 			return "", ""
+		}
+		if k.Req == 6 || k.Req == 7 {
+			// accounts as older versions stored them: the record is rewritten in the store
+			// (6: no locationPrefix -> kid-prefix rule; 7: no provisionerID -> name comparison)
+			if !w.rewriteAccount(a.ID, k.Req == 6, k.Req == 7) {
+				return "", ""
+			}
 		}
 		if k.Req == 3 {
 			if rec := e.Post(a, env.Path("p0", "account", a.ID), []byte(`{"status":"deactivated"}`)); rec.Code != 200 {
@@ -160,11 +176,12 @@ func (w *world) run(k *Case) (line, impl string) {
 		ownID = ow.acct.ID
 	}
 	if k.Route == "account" || k.Route == "orders" {
-		if k.Req == 3 || k.Req == 5 || k.Own == k.Req {
+		if k.Req == 3 || k.Req >= 5 || k.Own == k.Req {
 			ownID = req.ID // own account
 		}
 	}
 	var p string
+	var devicePayload []byte
 	tgt, tgt2 := "", ""
 	switch k.Route {
 	case "newAccount":
@@ -184,6 +201,30 @@ func (w *world) run(k *Case) (line, impl string) {
 	case "authz":
 		p, tgt = env.Path(provName, "authz", res.AuthzID), res.AuthzID
 	case "challenge":
+		if k.Which == "device" && ow != nil {
+			// fresh device-attest-01 orders: the challenge of the owner, the authorization of AzOwn
+			w.serial += 2
+			serial := 100000 + w.serial
+			d, err := w.deviceOrder(ow.acct, serial)
+			if err != nil {
+				return "", ""
+			}
+			res = &env.Issued{OrderID: d.order, AuthzID: d.authz, ChID: d.ch, Token: d.token}
+			az := d.authz
+			if k.AzOwn >= 0 && k.AzOwn <= 2 {
+				d2, err := w.deviceOrder(w.own[k.AzOwn].acct, serial+1)
+				if err != nil {
+					return "", ""
+				}
+				az = d2.authz
+			}
+			// a genuine attestation for this challenge by the requester's key
+			if att, err := attest(serial, d.token+"."+req.Key.Thumb()); err == nil {
+				devicePayload, _ = json.Marshal(map[string]string{"attObj": b64(att)})
+			}
+			p, tgt, tgt2 = env.Path(provName, "challenge", az, res.ChID), az, res.ChID
+			break
+		}
 		az := res.AuthzID
 		if k.AzOwn >= 0 && k.AzOwn <= 2 {
 			if k.Which == "pending" {
@@ -259,6 +300,21 @@ func (w *world) run(k *Case) (line, impl string) {
 			payload = []byte("{}")
 		default:
 			payload = nil
+		}
+	}
+	// device-attest-01: the validation loads the authorization of the URL and tests its owner before it
+	// looks at the payload; then: valid attestation (0), payload that is not JSON (1: 500), JSON that is
+	// refused (2: error stored in the challenge, answered 200, nothing written)
+	attestF, attp := false, 0
+	if devicePayload != nil {
+		attestF = true
+		switch k.Payload {
+		case "valid":
+			payload = devicePayload
+		case "empty":
+			attp = 1
+		default:
+			attp = 2
 		}
 	}
 	// revoke always needs a certificate payload to get anywhere: valid/garbage only
@@ -576,7 +632,7 @@ func (w *world) run(k *Case) (line, impl string) {
 			loc = in.id("loc:" + l)
 		}
 		accL = append(accL, fmt.Sprintf("%d:%d:%d:%s:%d:%d:%d", in.id("acc:"+a.ID), in.id("key:"+th), ka, statusLetter(a.Status), loc,
-			in.id("prov:"+a.ProvisionerID), in.id("pname:"+a.ProvisionerName)))
+			in.idp("prov:", a.ProvisionerID), in.idp("pname:", a.ProvisionerName)))
 	}
 	ordF, azF, chF, certF := "-", "-", "-", "-"
 	tgtN, tgt2N := 0, 0
@@ -591,7 +647,7 @@ func (w *world) run(k *Case) (line, impl string) {
 		tgtN = in.id("acc:" + tgt)
 	case "order", "finalize":
 		if o, err := e.RealDB.GetOrder(ctx, tgt); err == nil {
-			ordF = fmt.Sprintf("%d:%d:%d", tgtN, in.id("acc:"+o.AccountID), in.id("prov:"+o.ProvisionerID))
+			ordF = fmt.Sprintf("%d:%d:%d", tgtN, in.id("acc:"+o.AccountID), in.idp("prov:", o.ProvisionerID))
 		}
 	case "authz":
 		if z, err := e.RealDB.GetAuthorization(ctx, tgt); err == nil {
@@ -645,10 +701,17 @@ func (w *world) run(k *Case) (line, impl string) {
 			w.reissue(k.Own)
 		}
 	}
-	impl = fmt.Sprintf("%s n=%s%s acc=%s rev=%s", verdict, c.B(nlBefore), c.B(nlAfter), accAfter, revAfter)
+	fpAfter := "-"
+	if k.Route == "challenge" && attestF {
+		fpAfter = "0"
+		if z, err := e.RealDB.GetAuthorization(ctx, tgt); err == nil && z.Fingerprint != "" {
+			fpAfter = "1"
+		}
+	}
+	impl = fmt.Sprintf("%s n=%s%s acc=%s rev=%s fp=%s", verdict, c.B(nlBefore), c.B(nlAfter), accAfter, revAfter, fpAfter)
 
 	f["m"], f["p"] = "POST", c.X(pattern)
-	f["pid"], f["pname"], f["pknown"] = fmt.Sprint(in.id("prov:"+provID)), fmt.Sprint(in.id("pname:"+provName)), c.B(provID != "")
+	f["pid"], f["pname"], f["pknown"] = fmt.Sprint(in.idp("prov:", provID)), fmt.Sprint(in.idp("pname:", provName)), c.B(provID != "")
 	f["url"] = fmt.Sprint(in.id("url:" + reqURL))
 	f["ct"] = fmt.Sprint(map[string]int{"application/jose+json": 0, "application/pkix-cert": 1, "application/pkcs7-mime": 2}[ct])
 	if _, known := map[string]int{"application/jose+json": 0, "application/pkix-cert": 1, "application/pkcs7-mime": 2}[ct]; !known {
@@ -657,9 +720,9 @@ func (w *world) run(k *Case) (line, impl string) {
 	cpath := strings.Contains(reqURL, "/"+provName+"/certificate/")
 	f["parsed"] = c.B(isParsed)
 	f["fresh"] = fmt.Sprint(in.id("nonce:" + fresh + "#fresh"))
-	line = fmt.Sprintf("req v=2 m=POST p=%s pid=%s pname=%s pknown=%s url=%s ct=%s cpath=%s parsed=%s fresh=%s tgt=%d tgt2=%d plok=%s deact=%s only=%s ckey=%d csame=%s "+
+	line = fmt.Sprintf("req v=2 m=POST p=%s pid=%s pname=%s pknown=%s url=%s ct=%s cpath=%s parsed=%s fresh=%s tgt=%d tgt2=%d plok=%s deact=%s only=%s ckey=%d csame=%s attest=%s attp=%d "+
 		"ns=%d ue=%s ac=%s alg=%d es=%s short=%d jwk=%s kid=%d kb=%d kpre=%s nonce=%d jurl=%s ver=%s pe=%s nl=%s accs=%s ord=%s az=%s ch=%s cert=%s",
-		f["p"], f["pid"], f["pname"], f["pknown"], f["url"], f["ct"], c.B(cpath), f["parsed"], f["fresh"], tgtN, tgt2N, c.B(plok), c.B(deact), c.B(only), ckey, c.B(csame),
+		f["p"], f["pid"], f["pname"], f["pknown"], f["url"], f["ct"], c.B(cpath), f["parsed"], f["fresh"], tgtN, tgt2N, c.B(plok), c.B(deact), c.B(only), ckey, c.B(csame), c.B(attestF), attp,
 		ns, c.B(ue), ac, algN, c.B(es), short, jwkF, kidN, kbN, c.B(kpre), nonceN, jurl, verF, c.B(pe), c.B(nlBefore),
 		c.List(accL), ordF, azF, chF, certF)
 	js, _ := json.Marshal(k)
@@ -710,4 +773,42 @@ func flipCase(u, part string) string {
 	default:
 		return pre + host + pth[:last] + inv(pth[last:])
 	}
+}
+
+// storedAccount has the layout (field order and tags) of acme/db/nosql.dbAccount, so that a record
+// written by the harness is byte for byte what that package would have written.
+type storedAccount struct {
+	ID              string           `json:"id"`
+	Key             *jose.JSONWebKey `json:"key"`
+	Contact         []string         `json:"contact,omitempty"`
+	Status          acme.Status      `json:"status"`
+	LocationPrefix  string           `json:"locationPrefix"`
+	ProvisionerID   string           `json:"provisionerID,omitempty"`
+	ProvisionerName string           `json:"provisionerName"`
+	CreatedAt       time.Time        `json:"createdAt"`
+	DeactivatedAt   time.Time        `json:"deactivatedAt"`
+}
+
+// rewriteAccount turns a stored account into one as older versions wrote it.
+func (w *world) rewriteAccount(id string, dropLocation, dropProvisionerID bool) bool {
+	raw, err := w.e.NoSQL.Get([]byte("acme_accounts"), []byte(id))
+	if err != nil {
+		return false
+	}
+	var a storedAccount
+	if json.Unmarshal(raw, &a) != nil {
+		return false
+	}
+	// the layout must still be the package's: re-marshalling the untouched record gives the same bytes
+	if same, _ := json.Marshal(&a); !bytes.Equal(same, raw) {
+		return false
+	}
+	if dropLocation {
+		a.LocationPrefix = ""
+	}
+	if dropProvisionerID {
+		a.ProvisionerID = ""
+	}
+	nu, _ := json.Marshal(&a)
+	return w.e.NoSQL.Set([]byte("acme_accounts"), []byte(id), nu) == nil
 }
